@@ -143,6 +143,7 @@ class ScenarioCtx:
         self.validated = 0
         self.mismatches = []
         self.obligations = 0
+        self.cross = dict(checked=0, agree=0, disagree=0, unknown=0, error=0)
         self.rng = random.Random(seed)
 
     def engine(self, **kw):
@@ -160,6 +161,7 @@ class ScenarioCtx:
             m = eng.get_model()
         else:
             m = eng.model_for(cond)
+            self.crosscheck(eng, cond, m is not None)
             if m is None:
                 return False
         if key in self.findings:
@@ -168,6 +170,39 @@ class ScenarioCtx:
         w = witness_fn(m)
         self.findings[key] = Finding(key, obligation, w, detail if isinstance(detail, str) else detail(m))
         return True
+
+    def crosscheck(self, eng, cond, verdict_sat):
+        """re-decide a final obligation (path condition /\\ violating condition) with cvc5 and the system z3 from its
+        SMT-LIB2 export; thorough tier (or VERIF_CROSS=1), a bounded number per scenario.  A disagreement or an
+        `(error` line makes the run inconclusive."""
+        if not (self.tier == 'thorough' or os.environ.get('VERIF_CROSS')):
+            return
+        lim = int(os.environ.get('VERIF_CROSS_LIMIT', '25'))
+        # take the first few and then every 50th, so that late obligations are covered too
+        self.cross_seen = getattr(self, 'cross_seen', 0) + 1
+        if self.cross['checked'] >= lim or not (self.cross_seen <= lim // 2 or self.cross_seen % 50 == 0):
+            return
+        text = eng.smt2(cond)
+        want = 'sat' if verdict_sat else 'unsat'
+        self.cross['checked'] += 1
+        for name, cmd in (('cvc5', ['cvc5', '--lang', 'smt2', '--tlimit', '20000']), ('z3-4.8', ['/usr/bin/z3', '-in', '-T:20'])):
+            try:
+                pr = subprocess.run(cmd, input=text.encode(), stdout=subprocess.PIPE, stderr=subprocess.STDOUT, timeout=40)
+                out = pr.stdout.decode('utf-8', 'replace')
+            except subprocess.TimeoutExpired:
+                out = 'timeout'
+            first = out.strip().split('\n')[0].strip() if out.strip() else ''
+            if '(error' in out:
+                self.cross['error'] += 1
+                self.mismatches.append(dict(kind='crosscheck-error', solver=name, output=out[:200]))
+            elif first in ('sat', 'unsat'):
+                if first == want:
+                    self.cross['agree'] += 1
+                else:
+                    self.cross['disagree'] += 1
+                    self.mismatches.append(dict(kind='crosscheck-disagree', solver=name, z3=want, other=first))
+            else:
+                self.cross['unknown'] += 1
 
     def sample(self, x, limit=6):
         if len(self.samples) < limit:
@@ -196,7 +231,7 @@ def _worker(job):
         out['err'] = 'internal error: %s\n%s' % (ex, traceback.format_exc())
     out.update(findings={k: f.as_dict() for k, f in ctx.findings.items()}, samples=ctx.samples,
                stats=ctx.stats.as_dict(), covers=ctx.covers, validated=ctx.validated, mismatches=ctx.mismatches,
-               obligations=ctx.obligations, wall=time.time() - t0,
+               obligations=ctx.obligations, cross=ctx.cross, wall=time.time() - t0,
                used={q: (fd.file, fd.span[0] if fd.span else 0, prog.fn_hash(fd)) for q, fd in prog.used.items()})
     prog.used.clear()
     return out
@@ -412,6 +447,7 @@ def write_evidence(check, tier, seed, results, violations, known_hit, wall, mut_
     samples = []
     validated = 0
     obligations = 0
+    cross = {}
     for r in results:
         st.add(r['stats'])
         used.update(r.get('used', {}))
@@ -420,6 +456,8 @@ def write_evidence(check, tier, seed, results, violations, known_hit, wall, mut_
                 samples.append(s)
         validated += r['validated']
         obligations += r['obligations']
+        for k, v in (r.get('cross') or {}).items():
+            cross[k] = cross.get(k, 0) + v
     ev = {
         'property_id': check.id,
         'tier': tier if tier in ('quick', 'thorough') else 'quick',
@@ -434,6 +472,8 @@ def write_evidence(check, tier, seed, results, violations, known_hit, wall, mut_
                            'states = feasible paths explored, transitions = branch decisions put to the solver',
             'scenarios': len(results),
             'obligations': obligations,
+            'solver_crosscheck': dict(cross, solvers=['cvc5 1.0.3', 'z3 4.8.12'], note='final obligations (path condition and violating condition) '
+                                      're-decided from their SMT-LIB2 export; thorough tier or VERIF_CROSS=1') if cross.get('checked') else 'not run in this tier',
             'solver_queries': st.queries,
             'solver_s': round(st.solver_s, 2),
             'forks': st.forks,
